@@ -35,6 +35,8 @@ WHAT = {
     "P6": "pending tags are consumed: a builder that hands self.tags to a model element rebinds self.tags to a fresh list (no sharing, no carry-over to the next statement)",
     "P7": "a doc-string ends only at the delimiter that opened it; the lines in between are its text minus the opening indent",
     "P8": "table cells with pipes survive render (escape_cell) -> parse (split on unescaped pipes, unescape)",
+    "P13": "parse_file parses the text of the file as it is (utf-8 decoded, nothing normalised or stripped), under the file's name and the given language",
+    "P12": "a line is a step exactly when it begins with a step keyword as the language table spells it (the trailing blank included): 'Andrew likes toast' is not an And-step; keyword, type and text are what the line says",
     "P11": "a container keeps every child it is given - also one that has the same keyword and title as an earlier child (model elements compare equal by title)",
     "P9": "tag lines are read word by word: '@word' -> tag 'word' (any characters), '#word' starts a comment, anything else is a ParserError",
     "P10": "every parse_* entry point can return a model for some text (it is not dead)",
@@ -528,6 +530,104 @@ def check_parse_tags_entry(chk, ix):
         else:
             chk.fail(Finding("P9", f.fullname, "%r -> %r" % (text, got), "parse_tags(%r) returns %r; the tags of all its lines are %r"
                              % (text, got, want), file=f.file, line=f.lineno, stmt="def parse_tags"))
+
+
+def check_parse_step_concrete(chk, ix):
+    """P12: Parser.parse_step evaluated on concrete lines with the English keyword table (and a language whose keywords
+    carry no trailing blank)."""
+    chk.rule("P12", WHAT["P12"])
+    pc = ix.cls("behave.parser:Parser")
+    f = pc.lookup("parse_step")
+    if f is None:
+        raise AnalysisError("anchor missing: Parser.parse_step")
+    en = {"given": ["* ", "Given "], "when": ["* ", "When "], "then": ["* ", "Then "], "and": ["* ", "And "], "but": ["* ", "But "]}
+    zh = {"given": ["* ", "\u5047\u5982", "\u5047\u8bbe"], "when": ["* ", "\u5f53"], "then": ["* ", "\u90a3\u4e48"], "and": ["* ", "\u800c\u4e14", "\u5e76\u4e14"], "but": ["* ", "\u4f46\u662f"]}
+    cases = [
+        (en, None, "Given a step", ("Given", "given", "a step")), (en, None, "given lower case", ("Given", "given", "lower case")),
+        (en, "given", "And another", ("And", "given", "another")), (en, "when", "But not this", ("But", "when", "not this")),
+        (en, "then", "* a star step", ("*", "then", "a star step")), (en, None, "* first star", ("*", "given", "first star")),
+        (en, "given", "Andrew likes toast", None), (en, "given", "Butter is nice", None), (en, None, "Whenever it rains", None),
+        (en, None, "Givenchy bag", None), (en, "given", "*** banner ***", None), (en, None, "Thenceforth", None),
+        (en, None, "When   padded text  ", ("When", "when", "padded text")), (en, "given", "Scenario: x", None),
+        (zh, None, "\u5047\u5982\u6211\u6709\u4e00\u4e2a", ("\u5047\u5982", "given", "\u6211\u6709\u4e00\u4e2a")),
+        (zh, "given", "\u800c\u4e14 x", ("\u800c\u4e14", "given", "x")),
+    ]
+    for kws, last, line, want in cases:
+        made = []
+
+        def step_ctor(i, s_, a, k, n):
+            made.append((a[2], a[3], a[4]))
+            return [(s_, "val", s_.alloc(HObj("StepTok", {"keyword": a[2], "step_type": a[3], "name": a[4]}, label="step")))]
+        it = Interp(ix, stubs={"model.Step": step_ctor, "Step": step_ctor}, name="Parser.parse_step")
+        it.int_sat = 1000
+        it.list_cap = 100
+        st = State()
+        st.frames = []
+        kwd = st.alloc(HObj("dict", kind="dict", items=[(k_, st.alloc(HObj("list", kind="list", items=list(v_)))) for k_, v_ in kws.items()]))
+        me = st.alloc(HObj(pc, {"keywords": kwd, "last_step_type": last, "line": 7, "filename": "x.feature", "scenario_container": None,
+                                "statement": None}, label="parser"))
+        outs = it.call_function(st, f, [line], {}, None, self_val=me)
+        chk.absorb(it)
+        chk.instance("P12")
+        if len(outs) != 1 or outs[0][1] != "val":
+            raise AnalysisError("Parser.parse_step(%r) not foldable: %r" % (line, [(k, v) for _, k, v in outs][:3]))
+        got = made[0] if made else None
+        if got == want and (outs[0][2] is None) == (want is None):
+            chk.ok("P12", {"line": line, "after a step of type": last, "step": list(want) if want else None}, nontrivial_key=(line, last))
+        else:
+            chk.fail(Finding("P12", f.fullname, "%r -> %r" % (line, got),
+                             "the line %r (after a %s step) is read as %s; expected %s" % (
+                                 line, last or "no", "the step (keyword, type, text) = %r" % (got,) if got else "no step",
+                                 "the step %r" % (want,) if want else "no step (the text only looks like a keyword: ordinary text must lead to a "
+                                 "ParserError / description line, not to a step)"), file=f.file, line=f.lineno, stmt="def parse_step"))
+
+
+def check_parse_file_passes_text(chk, ix):
+    """P13: parse_file evaluated with a file object that returns given bytes: parse_feature receives exactly their
+    utf-8 decoding (decomposed characters, compatibility characters, a BOM-less text with tabs and CR LF included)."""
+    chk.rule("P13", WHAT["P13"])
+    f = ix.func("behave.parser:parse_file")
+    if f is None:
+        raise AnalysisError("anchor missing: behave.parser:parse_file")
+    texts = ["Feature: plain\n  Scenario: s\n    Given a step\n",
+             "Feature: cafe\u0301 de\u0301compose\u0301\n  Scenario: \ufb01ligree \u2126 \u212b\n    Given \u0ba8\u0bc6\u0bb1\u0bbf x\n",
+             "Feature: x\r\n\tScenario: tab\r\n"]
+    for text in texts:
+        got = []
+
+        class FileTok(object):
+            abs_type = "file"
+
+            def abs_call(self, it_, st_, name, args, kwargs, node):
+                if name == "read":
+                    return [(st_, "val", text.encode("utf-8"))]
+                if name in ("close", "__enter__", "__exit__"):
+                    return [(st_, "val", self if name == "__enter__" else None)]
+                return [(st_, "val", None)]
+        stubs = {"open": lambda i, s_, a, k, n: [(s_, "val", FileTok())], "@with": "transparent",
+                 "parse_feature": lambda i, s_, a, k, n: (got.append((a[0], a[1] if len(a) > 1 else k.get("language"), a[2] if len(a) > 2 else k.get("filename"))), [(s_, "val", "FEATURE")])[1]}
+        it = Interp(ix, stubs=stubs, name="parse_file")
+        it.int_sat = 100000
+        st = State()
+        st.frames = []
+        try:
+            outs = it.call_function(st, f, ["dir/x.feature", "de"], {}, None)
+        except AnalysisError as e:
+            raise AnalysisError("parse_file not evaluable on a file token: %s" % e)
+        chk.absorb(it)
+        chk.instance("P13")
+        if len(outs) != 1 or outs[0][1] != "val" or len(got) != 1:
+            raise AnalysisError("parse_file not evaluable on a file token: %r / %d calls of parse_feature" % ([(k, v) for _, k, v in outs][:3], len(got)))
+        data, lang, fname = got[0]
+        if not isinstance(data, str):
+            raise AnalysisError("parse_file: the text handed to parse_feature does not fold to a constant (%r)" % (data,))
+        if data == text and lang == "de" and fname == "dir/x.feature":
+            chk.ok("P13", {"file text": ascii(text)[:80], "parsed text": "identical", "language": lang, "filename": fname}, nontrivial_key=text)
+        else:
+            chk.fail(Finding("P13", f.fullname, "%s -> %s" % (ascii(text)[:60], ascii(data)[:60]),
+                             "parse_file hands parse_feature %s (language %r, file %r) for a file that contains %s: the text that is parsed is not the "
+                             "text of the file (names, cells and doc-strings come back altered; keywords of languages written with decomposed "
+                             "characters stop matching)" % (ascii(data), lang, fname, ascii(text)), file=f.file, line=f.lineno, stmt="def parse_file"))
 
 
 def check_model_adders(chk, ix):
